@@ -483,6 +483,11 @@ theorem step_wf (cols r : Cols α) (op : Op α) (hw : WF cols) (h : step cols op
       exact concat_wf o cols ((wfB_iff o).mp hc.1) hw
     · simp at h
   | sortBy j key => exact sortBy_wf key j cols r hw h
+  | predMask j p =>
+    simp only [step, predMask] at h
+    split at h
+    · simp at h
+    · exact mask_wf _ cols r hw h
   | replace j c =>
     simp only [step, replaceCol] at h
     split at h
@@ -767,6 +772,240 @@ example : wfFields [([97], Tab.col [1, 2]), ([98], Tab.tab [([97], Tab.col [3, 4
   simp [wfFields, wfVal, dotFree, dot]
 example : toDictFields [([97], Tab.col [1, 2]), ([98], Tab.tab [([97], Tab.col [3, 4]), ([99], Tab.col [5, 6])])]
     = [([97], [1, 2]), ([98, 46, 97], [3, 4]), ([98, 46, 99], [5, 6])] := by decide
+
+
+
+/-! ### masks computed from a column (`t[t.field == v]`) -/
+
+theorem zip_filterMap_eq_filter {β} (rows : List β) (q : β → Bool) :
+    (rows.zip (rows.map q)).filterMap (fun p => if p.2 then some p.1 else none) = rows.filter q := by
+  induction rows with
+  | nil => rfl
+  | cons r rs ih => cases h : q r <;> simp [h, ih]
+
+/-- column `j` read off the rows -/
+theorem toRows_column (n : Nat) (cols : Cols α) (h : WFn n cols) (hne : cols ≠ []) (j : Nat) (c : List α)
+    (hc : cols[j]? = some c) : (toRows cols).map (fun r => r[j]?) = c.map some := by
+  have hlen := toRows_length n cols h hne
+  have hcl : c.length = n := h c (List.mem_of_getElem? hc)
+  apply List.ext_getElem
+  · simp [hlen, hcl]
+  · intro i h1 h2
+    simp only [List.length_map] at h1 h2
+    simp only [List.getElem_map]
+    have hrow := toRows_getElem? n cols h hne i
+    rw [List.getElem?_eq_getElem h1, if_pos (by omega)] at hrow
+    have := omap_getElem? _ cols _ hrow.symm j
+    rw [this, hc]
+    simp [List.getElem?_eq_getElem h2]
+
+/-- **masking by a comparison on one field** keeps exactly the rows whose cell in that field satisfies
+the comparison, whole rows, in order -/
+theorem predMask_rows (p : α → Bool) (j : Nat) (cols r : Cols α) (hw : WF cols) (hne : cols ≠ [])
+    (h : predMask p j cols = some r) :
+    toRows r = (toRows cols).filter (fun row => match row[j]? with | some x => p x | none => false) := by
+  unfold predMask at h
+  split at h
+  · simp at h
+  · rename_i c hc
+    rw [mask_rows _ cols r hw hne h]
+    have hcol := toRows_column (nrows cols) cols hw hne j c hc
+    have : c.map p = (toRows cols).map (fun row => match row[j]? with | some x => p x | none => false) := by
+      have := congrArg (List.map (fun o : Option α => match o with | some x => p x | none => false)) hcol
+      simp only [List.map_map, Function.comp_def] at this
+      exact this.symm
+    rw [this, zip_filterMap_eq_filter]
+
+/-- a comparison mask never fails on an existing field of a well-formed table -/
+theorem predMask_total (p : α → Bool) (j : Nat) (cols : Cols α) (hw : WF cols) (hj : j < cols.length) :
+    ∃ r, predMask p j cols = some r := by
+  unfold predMask
+  rw [List.getElem?_eq_getElem hj]
+  simp only [mask]
+  have hl : cols[j].length = nrows cols := hw _ (List.getElem_mem hj)
+  rw [if_pos (by simpa using hl)]
+  simp only [take]
+  rw [if_pos]
+  · exact ⟨_, rfl⟩
+  · rw [List.all_eq_true]
+    intro i hi
+    have := maskIdx_lt _ i hi
+    simp only [List.length_map, hl] at this
+    simpa using this
+
+/-! ### `add_fields` without a type map: the tabulated inference gives the natural class -/
+
+/-- **inferred field types**: over the whole table re-extracted from the running code, a column added without a
+declared type gets the class its values naturally have (ints → integer array, text → text column, encoded
+sequences keep their encoding); it is refused only for values that are no basic type -/
+theorem infer_natural_class : Gen.C19.inferTable.all inferCellOK = true := by decide +kernel
+
+theorem infer_table_complete :
+    Gen.C19.inferTable.map (·.1) = ["list_int", "list_str", "list_float", "list_bool", "list_mixed", "nd_int", "nd_float",
+      "nd_bool", "nd_str", "encoded_ragged", "dna_ragged", "list_dna_rows", "string_array", "list_list_int"] := by decide +kernel
+
+/-! ### the index vocabulary pinned by standard notions -/
+
+/-- `maskIdx` lists exactly the positions holding `True` … -/
+theorem mem_maskIdx (m : List Bool) (i : Nat) : i ∈ maskIdx m ↔ m[i]? = some true := by
+  induction m generalizing i with
+  | nil => simp [maskIdx]
+  | cons b bs ih =>
+    simp only [maskIdx, List.mem_append, List.mem_map]
+    cases i with
+    | zero => cases b <;> simp
+    | succ i =>
+      constructor
+      · rintro (h | ⟨k, hk, e⟩)
+        · cases b <;> simp at h
+        · have : k = i := by omega
+          subst this; simpa using (ih k).mp hk
+      · intro h
+        exact Or.inr ⟨i, (ih i).mpr (by simpa using h), rfl⟩
+
+/-- … in increasing order -/
+theorem maskIdx_sorted (m : List Bool) : (maskIdx m).Pairwise (· < ·) := by
+  induction m with
+  | nil => simp [maskIdx]
+  | cons b bs ih =>
+    simp only [maskIdx]
+    rw [List.pairwise_append]
+    refine ⟨by cases b <;> simp, ?_, ?_⟩
+    · rw [List.pairwise_map]
+      exact ih.imp (by intro a b h; omega)
+    · intro a ha c hc
+      cases b <;> simp at ha
+      subst ha
+      simp only [List.mem_map] at hc
+      obtain ⟨k, _, rfl⟩ := hc
+      omega
+
+/-- `gather` is `map` of `getElem` on in-range indices -/
+theorem gather_eq_map (ix : List Nat) (l : List α) (d : α) (h : ∀ i ∈ ix, i < l.length) :
+    gather ix l = ix.map (fun i => l.getD i d) := by
+  induction ix with
+  | nil => rfl
+  | cons i ix ih =>
+    have hi : i < l.length := h i (by simp)
+    simp only [gather, List.filterMap_cons, List.getElem?_eq_getElem hi, List.map_cons] at ih ⊢
+    rw [ih (fun j hj => h j (by simp [hj]))]
+    simp [List.getD_eq_getElem?_getD, List.getElem?_eq_getElem hi]
+
+theorem concat_getElem? (a b : Cols α) (j : Nat) :
+    (concat a b)[j]? = (a[j]?).bind (fun x => (b[j]?).map (fun y => x ++ y)) := by
+  simp only [concat, List.getElem?_zipWith]
+  cases a[j]? <;> cases b[j]? <;> rfl
+
+/-! ### when the operations raise (completeness) -/
+
+theorem take_none_iff (ix : List Nat) (cols : Cols α) : take ix cols = none ↔ ∃ i ∈ ix, nrows cols ≤ i := by
+  unfold take
+  split
+  · rename_i h
+    simp only [List.all_eq_true, decide_eq_true_eq] at h
+    simp only [reduceCtorEq, false_iff, not_exists, not_and]
+    intro i hi; have := h i hi; omega
+  · rename_i h
+    rw [Bool.not_eq_true, List.all_eq_false] at h
+    obtain ⟨i, hi, hlt⟩ := h
+    simp only [true_iff]
+    exact ⟨i, hi, by simpa using hlt⟩
+
+theorem mask_none_iff (m : List Bool) (cols : Cols α) : mask m cols = none ↔ m.length ≠ nrows cols := by
+  unfold mask
+  split
+  · rename_i h
+    simp only [h, ne_eq, not_true_eq_false, iff_false]
+    intro hn
+    obtain ⟨i, hi, hle⟩ := (take_none_iff _ cols).mp hn
+    have := maskIdx_lt m i hi
+    omega
+  · rename_i h; simp [h]
+
+theorem replaceCol_none_iff (j : Nat) (c : List α) (cols : Cols α) :
+    replaceCol j c cols = none ↔ ¬ (j < cols.length ∧ WF (cols.set j c)) := by
+  unfold replaceCol
+  split
+  · rename_i h
+    simp only [Bool.and_eq_true, decide_eq_true_eq] at h
+    simp [h.1, (wfB_iff _).mp h.2]
+  · rename_i h
+    simp only [Bool.and_eq_true, decide_eq_true_eq, not_and] at h
+    simp only [true_iff, not_and]
+    intro hj hw
+    exact h hj ((wfB_iff _).mpr hw)
+
+/-! ### laws: identity, composition, distribution -/
+
+theorem gather_range (l : List α) : gather (List.range l.length) l = l := by
+  apply List.ext_getElem?
+  intro p
+  rw [gather_getElem? _ l (by intro i hi; simpa using hi)]
+  by_cases hp : p < l.length
+  · simp [hp]
+  · simp [hp] <;> omega
+
+/-- indexing with all positions in order is the identity -/
+theorem take_range (cols : Cols α) (hw : WF cols) : take (List.range (nrows cols)) cols = some cols := by
+  unfold take
+  rw [if_pos (by simp)]
+  congr 1
+  conv => rhs; rw [← List.map_id cols]
+  apply List.map_congr_left
+  intro c hc
+  have := hw c hc
+  rw [← this]
+  exact gather_range c
+
+theorem gather_gather (ix iy : List Nat) (l : List α) (hy : ∀ i ∈ iy, i < l.length) (hx : ∀ i ∈ ix, i < iy.length) :
+    gather ix (gather iy l) = gather (gather ix iy) l := by
+  apply List.ext_getElem?
+  intro p
+  have hl : (gather iy l).length = iy.length := gather_length iy l hy
+  rw [gather_getElem? ix _ (by intro i hi; rw [hl]; exact hx i hi)]
+  have hxy : ∀ i ∈ gather ix iy, i < l.length := by
+    intro i hi
+    simp only [gather, List.mem_filterMap] at hi
+    obtain ⟨k, _, hk⟩ := hi
+    exact hy i (List.mem_of_getElem? hk)
+  rw [gather_getElem? (gather ix iy) l hxy, gather_getElem? ix iy hx]
+  cases ix[p]? with
+  | none => rfl
+  | some k =>
+    simp only [Option.bind_some]
+    rw [gather_getElem? iy l hy]
+
+/-- **composition of indexings**: `t[iy][ix] = t[iy[ix]]` -/
+theorem take_take (ix iy : List Nat) (cols c1 c2 : Cols α) (hw : WF cols) (hne : cols ≠ [])
+    (h1 : take iy cols = some c1) (h2 : take ix c1 = some c2) : take (gather ix iy) cols = some c2 := by
+  obtain ⟨hy, rfl⟩ := take_some iy cols c1 h1
+  obtain ⟨hx, rfl⟩ := take_some ix _ c2 h2
+  have hn1 : nrows (cols.map (gather iy)) = iy.length := by
+    cases cols with
+    | nil => exact absurd rfl hne
+    | cons c cs =>
+      simp only [List.map_cons, nrows]
+      exact gather_length iy c (fun i hi => by simpa [nrows] using hy i hi)
+  rw [hn1] at hx
+  unfold take
+  rw [if_pos]
+  · congr 1
+    rw [List.map_map]
+    apply List.map_congr_left
+    intro c hc
+    simp only [Function.comp_apply]
+    exact (gather_gather ix iy c (fun i hi => by rw [hw c hc]; exact hy i hi) hx).symm
+  · rw [List.all_eq_true]
+    intro i hi
+    simp only [gather, List.mem_filterMap] at hi
+    obtain ⟨k, _, hk⟩ := hi
+    simpa using hy i (List.mem_of_getElem? hk)
+
+theorem concat_assoc (a b c : Cols α) : concat (concat a b) c = concat a (concat b c) := by
+  apply List.ext_getElem?
+  intro j
+  simp only [concat_getElem?]
+  cases a[j]? <;> cases b[j]? <;> cases c[j]? <;> simp
 
 
 end C19
